@@ -3,6 +3,8 @@ under every failure position / partial read size."""
 import itertools
 
 PID = "C15"
+PARALLEL = {"C15": 4, "C15retry": 2}
+TIMEOUT = {"quick": 1500, "thorough": 7000}
 SUBS = ["C15", "C15retry"]
 RULE = ("stores: random create/write/commit/discard-writer/open(offset)/stat/discard sequences over 2 tasks x 2 partitions on the "
         "memory store and on the file store, the latter with a failure injected at the k-th underlying file operation "
